@@ -20,6 +20,7 @@ RULE = (
     "(L0 = 316..512, i.e. 1970..2200) x sub-tick residues {0,99} ns x {sync, async}; thorough adds every L2 boundary 1970-2200 at "
     "offsets {-1,0}. A clock that advances on every read (torn reads), a walk over 140 consecutive intervals and jumps by whole L0/L1 periods on one cache are also enumerated. Each boundary is then crossed again backwards and in zig-zag order on the same cache. Also a cache without the root key whose first protect fetches the key from a DC with a clock 290 s / 120 s / 1 tick behind or ahead (7 skews x 3 boundary kinds x 3 first-call offsets x 11 later clock positions): every later protect that opens no connection names the interval of the local clock. Also a cache holding only seed keys obtained from a (reference) DC: boundary grid, and a grid of (primed envelope position incl. shapes without an L1 key) x (local clock position slightly behind/ahead). A case is non-trivial when the real protect API returned a blob whose key "
     "identifier was parsed by the reference reader; distinct = distinct (t, api, source)."
+    ' Also, after an unprotect of a damaged blob (wrapped CEK, content, truncated, key-identifier nonce) on a root-key cache and on a seed-only cache, three protects that must still be served from the cache.'
 )
 ASSUME = [
     "time.time_ns/time.time are how the library reads the clock (an implementation reading it otherwise is detected and reported as collapsed coverage, not as a violation)",
